@@ -112,7 +112,7 @@ where
             .state
             .taps
             .front()
-            .map_or(false, |(_, time)| time + N <= current_time)
+            .map_or(false, |(_, time)| current_time - time >= N)
         {
             let _ = self.state.taps.pop_front();
         }
@@ -138,7 +138,7 @@ where
             for (_, time) in self.state.taps.iter_mut() {
                 *time -= offset;
             }
-            self.state.time = N;
+            self.state.time = N + 1;
         }
 
         #[allow(clippy::unwrap_used)]
